@@ -502,6 +502,10 @@ func runPair(pc PairCase, r *runlog.R) error {
 		return nil
 	}
 	la, lb := ma.Leaves("."), mb.Leaves(".")
+	if hasDup(la) || hasDup(lb) {
+		r.Discard() // a key that contains the separator: two settings share one path string
+		return nil
+	}
 	mk := func(t *gen.Tree) (*ucfg.Config, error) {
 		var c *ucfg.Config
 		err := uc.Safe("NewFrom", func() error {
